@@ -17,6 +17,19 @@ def run(chk, tier, proof_ok):
     divs, errs = _plumb.correspondence(chk, n, dict(allow_saveload=True, max_ops=8))
     full = tier == 'thorough' or not proof_ok or bool(divs) or bool(errs)
     cases = realsearch.gen_cases(chk.seed * 11 + 3, 600 if full else 60, allow_saveload=True)
+    # directed: componentwise Andrieu-Thoms scaling through and past its adaptation window
+    import random
+    import plumbing
+    drng = random.Random(chk.seed * 47 + 3)
+    for fam in ('at_adaptive_normal', 'at_adaptive_bounded_normal', 'at_adaptive_angular'):
+        for _ in range(4 if full else 2):
+            c = plumbing.gen_case(drng, 'comp', families=[fam], allow_saveload=True, allow_slow=False)
+            for _, _, kw in c.props:
+                kw['componentwise'] = True
+                kw['window'] = drng.choice([3, 4, 5, 6])
+            c.ops = [('run', 1), ('run', 2), ('run', 1), ('run', 1), ('run', 1), ('run', 1), ('run', 2), ('dump',),
+                     ('saveload',), ('run', 3)]
+            cases.append(c)
     findings = []
     for c in cases:
         for key, text, payload in realsearch.call_count_findings(c):
